@@ -136,6 +136,104 @@ def history(rng, facade, tgt, tr, bs, n_ops):
     return ev
 
 
+def composed(chk, fs):
+    """spec -> code on the composition (Initiator.tla): behaviours generated by TLC (-simulate) mix I/O, injected
+    CHECK CONDITION / BUSY completions, node replacement / removal and re-attach; each is replayed step by step on a
+    real SCSI facade over SCSIDevice (tmpfs node, stand-in sgio, live target) and the caller-visible outcome of every
+    step is compared with what the specification recorded"""
+    ev = chk.ev
+    r = tlc.run("Initiator", "MC_Initiator.cfg", workers=16, timeout=600, name="c12init")
+    if not r.ok:
+        raise tlc.TLCFailure("Initiator.tla violated %s\n%s" % (r.violated, r.counterexample[:1500]))
+    ev.tlc("Initiator/MC_Initiator.cfg (exhaustive, 5 steps)", r)
+    short = [v for t, v in r.prints if t == "BEHAVIOUR"]
+    rng = random.Random(chk.seed)
+    behaviours = rng.sample(short, min(len(short), 300 if chk.quick else 5000))
+    for cfg in ("Sim_Initiator_on.cfg", "Sim_Initiator_off.cfg"):
+        rs = tlc.run("Initiator", cfg, workers=1, timeout=600, name="c12sim", simulate="num=%d" % (60 if chk.quick else 1500),
+                     extra=["-depth", "30", "-seed", str(chk.seed + 11)])
+        if rs.violated:
+            raise tlc.TLCFailure("Initiator.tla (simulation) violated %s" % rs.violated)
+        behaviours += [v for t, v in rs.prints if t == "BEHAVIOUR"]
+    d = bindings.shm_dir("c12i")
+    path = os.path.join(d, "sg0")
+    sd = mod("pyscsi.pyscsi.scsi_device")
+    SCSI = mod("pyscsi.pyscsi.scsi").SCSI
+    n = [0]
+
+    def new_node():
+        n[0] += 1
+        tmp = path + ".n%d" % n[0]
+        with open(tmp, "wb") as f:
+            f.write(b"x")
+        os.rename(tmp, path)
+    sense = bytes([0x70, 0, 5, 0, 0, 0, 0, 10, 0, 0, 0, 0, 0x24, 0, 0, 0, 0, 0])
+    steps = 0
+    try:
+        for b in behaviours:
+            if os.path.exists(path):
+                os.unlink(path)
+            new_node()
+            live = LiveTarget(1, 1)
+            live.disk = {0: b"\0", 1: b"\0"}
+            st = {"fault": None}
+
+            def target(cdb, dataout, datain, live=live, st=st):
+                if st["fault"] is not None:
+                    f, st["fault"] = st["fault"], None
+                    return (2, sense) if f == "cc" else (8, None)
+                return live(cdb, dataout, datain)
+            fs.reset(target)
+            dev = sd.SCSIDevice(path, readwrite=True, detect_replugged=bool(b["detect"]))
+            facade = SCSI(dev, 1)
+            for i, s_ in enumerate(b["steps"]):
+                a = s_["act"]
+                out, data = "ok", 0
+                try:
+                    if a == "write":
+                        facade.write10(s_["lba"], 1, bytearray([s_["val"]]))
+                    elif a == "read":
+                        data = facade.read10(s_["lba"], 1).datain[0]
+                    elif a == "reattach":
+                        facade(dev)
+                    elif a == "replug":
+                        new_node()
+                    elif a == "unplug":
+                        os.unlink(path)
+                    elif a == "plug":
+                        new_node()
+                    elif a == "arm_cc":
+                        st["fault"] = "cc"
+                    elif a == "arm_busy":
+                        st["fault"] = "busy"
+                except Exception as ex:
+                    out = type(ex).__name__
+                steps += 1
+                if out != s_["out"] or (a == "read" and out == "ok" and data != s_["data"]):
+                    chk.violation({"clause": "ComposedBehaviour", "cls": "", "field": "", "method": a, "tr": "sgio",
+                                   "detail": {"step": i, "expected": s_, "observed": {"out": out, "data": data},
+                                              "behaviour": b["steps"][:i + 1], "detect": b["detect"]},
+                                   "what": "Initiator.tla behaviour replayed"}, dedup=("Composed", a, s_["out"], out))
+                    break
+            try:
+                dev.close()
+            except Exception:
+                pass
+            ev.case(("behaviour", json_key(b)))
+    finally:
+        for f in os.listdir(d):
+            os.unlink(os.path.join(d, f))
+        os.rmdir(d)
+    ev.replayed(steps)
+    ev.cov["composed_behaviours_replayed"] = len(behaviours)
+    ev.sample({"behaviour": behaviours[-1]["steps"][:8]})
+
+
+def json_key(b):
+    import json
+    return json.dumps(b, sort_keys=True)[:600]
+
+
 def run(chk, replay=None):
     ev = chk.ev
     ev.assumptions += [
@@ -194,6 +292,7 @@ def run(chk, replay=None):
                                "detail": {"expected": detail[:400], "event": {k: e[k] for k in ("method", "a", "cdb", "exc")}},
                                "what": "facade I/O against the target"}, dedup=(clause, e.get("method"), e.get("tr")))
     ev.judged("Trace_Target", nst, total)
+    composed(chk, fs)
     ev.sample({"event": {k: hists[0][3][k] for k in ("method", "a", "cdb", "dout", "din_seen")}})
     ev.cov["rule"] = ("random histories (10-60 / 10-200 operations) of read10/12/16, write10/12/16, writesame10/16 (incl. "
                       "NDOB, UNMAP, ANCHOR), synchronizecache, readcapacity10/16 and inquiry through the facade over "
